@@ -332,7 +332,7 @@ ASSUMPTIONS = [
 EXPLANATION = "The real __deepcopy__ hooks executed against a model of copy.deepcopy's protocol: memo frame, closure, hook invariant, separation, edit frames."
 MANIFEST = {
     "category": "proof",
-    "text": "The real Class.__deepcopy__ / ClassModificationArgument.__deepcopy__ hooks and the edit API are executed against an explicit model of copy.deepcopy's protocol on the real ast classes: an existing memo entry for the parent is never overwritten (so every class of a copied tree has its parent in the copy), a copied sub-tree shares only its parent, no mutable object of a copy belongs to the original, the __deepcopy__ found on any copy copies that copy (copies of edited copies keep the edit), each edit method changes only its receiver, and look-ups through imports (real _find_class, memoised) leave no reference to a class object outside its owner so that copies made after look-ups are still closed. A bounded replay interleaves deepcopy, edits and flatten on real libraries.",
+    "text": "The real Class.__deepcopy__ / ClassModificationArgument.__deepcopy__ hooks and the edit API are executed against an explicit model of copy.deepcopy's protocol on the real ast classes: an existing memo entry for the parent is never overwritten (so every class of a copied tree has its parent in the copy), a copied sub-tree shares only its parent, no mutable object of a copy belongs to the original, the __deepcopy__ found on any copy copies that copy (copies of edited copies keep the edit), each edit method changes only its receiver, and look-ups through imports (real _find_class, memoised) leave no reference to a class object outside its owner so that copies made after look-ups are still closed. A bounded replay interleaves deepcopy, edits and flatten on real libraries. Independence also rests on C05's obligation that tree.py / ast.py keep no module-level state that functions write to.",
     "note": "copy.deepcopy's protocol is assumed as documented; library shapes and edits enumerated; flattening of the copies is only in the replay.",
     "technique": "contract-based deductive verification: heap-shape obligations by executing the real hooks symbolically against an assumed deepcopy protocol",
 }
